@@ -46,7 +46,7 @@ func runC23(h *hx.H) {
 	if h.Thorough() {
 		styles = 5
 	}
-	h.Rule = fmt.Sprintf("inputs: every compiler-accepted workspace within %d deviation(s) of the three bases, printed plainly, with line comments around every line, and with detached paragraphs and block comments around every line (thorough: also tab-indented and CRLF variants); compiled with source info standard / extra comments / extra option locations / both; oracle: every location path walks, by reflection, to an existing field (and index) of the produced FileDescriptorProto; spans have 3 or 4 numbers, start <= end, inside the text (tab stops of 8); every comment line, markers removed, occurs in the source; extra-comments mode has the same (path, span) sequence as standard and keeps every comment standard has; extra-option-locations has standard's sequence as a subsequence and every additional path runs through an options field; non-trivial = commented file with >=1 deviation", maxDev)
+	h.Rule = fmt.Sprintf("inputs: every compiler-accepted workspace within %d deviation(s) of the three bases, printed plainly, with line comments around every line, and with detached paragraphs and block comments around every line (thorough: also tab-indented and CRLF variants); compiled with source info standard / extra comments / extra option locations / both; oracle: every location path walks, by reflection, to an existing field (and index) of the produced FileDescriptorProto; spans have 3 or 4 numbers, start <= end, inside the text (tab stops of 8); every named element (message, field, oneof, enum, value, service, method, extension) has a name location whose span covers exactly its name; every comment line, markers removed, occurs in the source; extra-comments mode has the same (path, span) sequence as standard and keeps every comment standard has; extra-option-locations has standard's sequence as a subsequence and every additional path runs through an options field; non-trivial = commented file with >=1 deviation", maxDev)
 	modes := []protocompile.SourceInfoMode{protocompile.SourceInfoStandard, protocompile.SourceInfoExtraComments, protocompile.SourceInfoExtraOptionLocations, protocompile.SourceInfoExtraComments | protocompile.SourceInfoExtraOptionLocations}
 	forEachWS(h, maxDev, func(idx int64, ws *model.WS, ndev int) {
 		h.Eval(1)
@@ -81,6 +81,10 @@ func runC23(h *hx.H) {
 					}
 					if f.Path() == "main.proto" {
 						infos[mi] = locs
+					}
+					if msg := checkNames(fd, locs, text); msg != "" {
+						fail("source-info-name-location", "mode %d: %s: %s", mi, f.Path(), msg)
+						return
 					}
 					lines := strings.Split(text, "\n")
 					for _, loc := range locs {
@@ -254,4 +258,88 @@ func checkSpan(span []int32, lines []string) string {
 		return fmt.Sprintf("column beyond the line's width (%d / %d)", visualWidth(lines[sl]), visualWidth(lines[el]))
 	}
 	return ""
+}
+
+// checkNames requires that every named element of the file (messages, fields, oneofs, enums,
+// values, services, methods, extensions; not synthetic map entries) has a location for its name
+// and that the text under that location's span is the element's name.
+func checkNames(fd *descriptorpb.FileDescriptorProto, locs []*descriptorpb.SourceCodeInfo_Location, text string) string {
+	byPath := map[string]*descriptorpb.SourceCodeInfo_Location{}
+	for _, l := range locs {
+		k := fmt.Sprint(l.Path)
+		if _, dup := byPath[k]; !dup {
+			byPath[k] = l
+		}
+	}
+	lines := strings.Split(text, "\n")
+	spanText := func(l *descriptorpb.SourceCodeInfo_Location) (string, bool) {
+		s := l.Span
+		if len(s) != 3 || int(s[0]) >= len(lines) {
+			return "", false
+		}
+		// columns count tab stops; only spans on tab-free prefixes are compared
+		line := lines[s[0]]
+		if strings.Contains(line, "\t") || int(s[2]) > len(line) {
+			return "", false
+		}
+		return line[s[1]:s[2]], true
+	}
+	var msg string
+	check := func(path []int32, name string, synthetic bool) {
+		if msg != "" || synthetic {
+			return
+		}
+		np := append(append([]int32(nil), path...), 1)
+		l := byPath[fmt.Sprint(np)]
+		if l == nil {
+			msg = fmt.Sprintf("no location for the name of %s (path %v)", name, np)
+			return
+		}
+		if got, ok := spanText(l); ok && got != name && !strings.EqualFold(got, name) {
+			msg = fmt.Sprintf("the name location of %s (path %v, span %v) covers %q", name, np, l.Span, got)
+		}
+	}
+	var inMsg func(path []int32, m *descriptorpb.DescriptorProto)
+	fields := func(path []int32, num int32, fs []*descriptorpb.FieldDescriptorProto) {
+		for i, f := range fs {
+			check(append(append([]int32(nil), path...), num, int32(i)), f.GetName(), false)
+		}
+	}
+	enums := func(path []int32, num int32, es []*descriptorpb.EnumDescriptorProto) {
+		for i, e := range es {
+			ep := append(append([]int32(nil), path...), num, int32(i))
+			check(ep, e.GetName(), false)
+			for j, v := range e.Value {
+				check(append(append([]int32(nil), ep...), 2, int32(j)), v.GetName(), false)
+			}
+		}
+	}
+	inMsg = func(path []int32, m *descriptorpb.DescriptorProto) {
+		if m.GetOptions().GetMapEntry() {
+			return
+		}
+		check(path, m.GetName(), false)
+		fields(path, 2, m.Field)
+		fields(path, 6, m.Extension)
+		for i, o := range m.OneofDecl {
+			check(append(append([]int32(nil), path...), 8, int32(i)), o.GetName(), strings.HasPrefix(o.GetName(), "_"))
+		}
+		enums(path, 4, m.EnumType)
+		for i, n := range m.NestedType {
+			inMsg(append(append([]int32(nil), path...), 3, int32(i)), n)
+		}
+	}
+	for i, m := range fd.MessageType {
+		inMsg([]int32{4, int32(i)}, m)
+	}
+	enums(nil, 5, fd.EnumType)
+	fields(nil, 7, fd.Extension)
+	for i, sv := range fd.Service {
+		sp := []int32{6, int32(i)}
+		check(sp, sv.GetName(), false)
+		for j, mt := range sv.Method {
+			check(append(append([]int32(nil), sp...), 2, int32(j)), mt.GetName(), false)
+		}
+	}
+	return msg
 }
